@@ -26,6 +26,8 @@ var tmpls = []vlib.Tmpl{
 	vlib.T("plain/sub/x"), vlib.T("plain/l1/descr"), vlib.T("plain/l1/descr-long"), vlib.T("plain/l1/mtu"), vlib.T("plain/l1/tags"), vlib.T("plain/l1/cfg/mode"),
 	vlib.T("plain/l1/sub/v"), vlib.T("plain/l1/oper"), vlib.T("plain/l2a/v"), vlib.T("plain/l2a/w"), vlib.T("plain/ifc/v"), vlib.T("plain/ifc-ext/v"), vlib.T("state/counter"), vlib.T("state/oper"),
 	vlib.T("plain/extleaf"), vlib.T("plain/l1/extattr"), vlib.T("plain/l2z/v"),
+	// (appended) members of ONE case of a choice (a valid running configuration holds one case) and non-members
+	vlib.T("chc/ca"), vlib.T("chc/ca2"), vlib.T("chc/other"), vlib.T("chc/ca-x"), vlib.T("chc/nest/oi/na"),
 }
 var uni = &vlib.Universe{Name: "getdata", Tmpls: tmpls}
 var palette = []string{"eth1", "eth10", "eth1/1"}
